@@ -62,7 +62,16 @@ func runC01CMP(c *fw.Ctx, n, t int, ids []party.ID, hist int) {
 		histS = "derived"
 		m2, errs := m.DeriveChild(drawIndex(c))
 		if len(errs) == 0 {
-			m = m2
+			switch c.S.Draw(3, "derived-use") {
+			case 0:
+				m = m2
+			case 1:
+				histS += "+parent-reused"
+			case 2:
+				histS += "+sibling-derived"
+				_, _ = m.DeriveChild(drawIndex(c))
+				m = m2
+			}
 			Y = m.PublicKey(m.IDs[0])
 		}
 	}
